@@ -305,6 +305,17 @@ class Checker:
                                      'is NOT reached on some normal path '
                                      'to the exit'))
 
+    def always(self, rule: str, f: Func, test, what: str) -> bool:
+        """Every path entry -> normal exit passes a statement with test()."""
+        cfg = self.cfg(f)
+        from .cfg import ENTRY, EXIT
+        seen = cfg._reach([ENTRY], lambda k: stmt_has(cfg.stmt[k], test))
+        ok = EXIT not in seen
+        return self.ob(rule, f'{f.fq} :: always {what}', ok,
+                       self.where(f.node, f),
+                       f'{what} ' + ('is on every normal path' if ok else
+                                     'is skipped on some normal path'))
+
     def is_call_to(self, *names):
         def test(n):
             if isinstance(n, ast.Call):
